@@ -468,6 +468,9 @@ struct Gen {
         if (!cfg.allowMinkowski) return {leaf()};
         int ib = pickIdx();
         if (aTris > 200 || pool[ib].trisHint > 60) return {leaf()};
+        // the hints are estimates: bound the real cost (face-count product, and
+        // a non-convex pair is far slower still) by the actual triangle counts
+        if (a.NumTri() > 200 || pool[ib].m.NumTri() > 60 || a.NumTri() * pool[ib].m.NumTri() > 4000) return {leaf()};
         bool sum = r.chance(0.6);
         Manifold b = pool[ib].m.Scale(vec3(0.2));
         return {add(sum ? a.MinkowskiSum(b) : a.MinkowskiDifference(b), A + (sum ? ".MinkowskiSum(v" : ".MinkowskiDifference(v") + std::to_string(ib) + ".Scale(0.2))", false, aTris * 4)};
